@@ -37,10 +37,32 @@ func (id *Ideal) String() string {
 func (r *QuotientRing) NewIdeal(generators ...*Polynomial) (*Ideal, error) {
 	const op = "Defining ideal"
 
+	if len(generators) == 0 {
+		return nil, errors.New(
+			op, errors.InputValue,
+			"No generators were given",
+		)
+	}
+	for _, g := range generators {
+		if g.baseRing != r {
+			return nil, errors.New(
+				op, errors.InputIncompatible,
+				"Generators defined over different rings",
+			)
+		}
+	}
+
 	gcd, err := Gcd(generators[0], generators[1:]...)
 
 	if err != nil {
 		return nil, errors.Wrap(op, errors.Inherit, err)
+	}
+
+	if gcd.IsZero() {
+		return nil, errors.New(
+			op, errors.InputValue,
+			"Generators %v define an empty ideal", generators,
+		)
 	}
 
 	id := &Ideal{
@@ -107,6 +129,12 @@ func (id *Ideal) Reduce(f *Polynomial) error {
 
 	if tmp := checkErrAndCompatible(op, f, id.generator); tmp != nil {
 		return tmp.Err()
+	}
+
+	if id.generator.Ld() == 0 {
+		// The ideal is the whole ring, so every polynomial reduces to zero
+		f.SetZero()
+		return nil
 	}
 
 	for d := f.Ld(); d >= id.generator.Ld(); d = f.Ld() {
